@@ -73,7 +73,7 @@ def run_job(job: dict) -> dict:
 def plan(tier: str, seed: int) -> dict:
     # one single-case phase per gated construct: the table part is exhaustive, and the
     # construct is a parameter (not a draw), so a replay addresses it exactly
-    table = [{"name": "table", "n_cases": 1, "cases_per_job": 1,
+    table = [{"name": "table", "n_cases": 1, "cases_per_job": 1, "first": True,
               "params": {"mode": "table", "kind": k}} for k in P.ALL_KINDS]
     if tier == "quick":
         return {"budget_s": 100, "min_budget": 60, "phases": [
@@ -348,6 +348,7 @@ def run_case(ch: Choices, params: dict) -> dict:
         "violations": run.viol, "digest": run.log.digest(), "steps": run.steps,
         "faults": run.faults, "probes": run.probes,
         "keys": [key], "nontrivial_keys": [key] if nontrivial else [],
+        "sets": {"probe_programs_checked": sorted(pname(p) for p in run.progs if p["seen"])},
         "trace": {"programs": [pname(p) for p in run.progs],
                   "history": render_ops(ops), "events": run.log.events},
     }
